@@ -91,18 +91,15 @@ inductive PassRes (α : Type)
 
 /-- The `while i < state.len()` loop of `process_item`. -/
 def loop : Nat → Nat → List Label → Cfg ι κ ρ → PassRes (List Label × Cfg ι κ ρ)
-  | fuel, i, st, cfg =>
+  | 0, i, st, cfg => if i < st.length then .fuel else .ok (st, cfg)
+  | fuel + 1, i, st, cfg =>
     if h : i < st.length then
-      match fuel with
-      | 0 => .fuel
-      | fuel + 1 =>
-        let lbl := st[i]
-        match findBlock cfg lbl with
-        | none => .panic                       -- `.unwrap()` on `None`
-        | some b =>
-          match processBlock st b.instrs with
-          | none => .panic                     -- `ice!`
-          | some (st', is) => loop fuel (i + 1) st' (setBlock cfg lbl is)
+      match findBlock cfg st[i] with
+      | none => .panic                         -- `.unwrap()` on `None`
+      | some b =>
+        match processBlock st b.instrs with
+        | none => .panic                       -- `ice!`
+        | some (st', is) => loop fuel (i + 1) st' (setBlock cfg st[i] is)
     else .ok (st, cfg)
 
 /-- `item.blocks.retain(|b| state.contains(&b.label))` -/
